@@ -48,7 +48,8 @@ FApply(pt, op, k) ==
   LET m == op.modes[1] IN
   CASE op.name \in Symp1Names \cup Symp2Names \cup SympNNames -> FLin(pt, op.modes, SympOf(op))
     [] op.name \in DispNames -> FDisp(pt, m, DispOf(op, k))
-    [] op.name = "Vgate" -> [pt EXCEPT ![PI(pt, m)] = (@ + Res(Sgn(op, op.p[1])) * pt[XI(pt, m)] * pt[XI(pt, m)]) % P]
+    \* cubic phase gate exp(i gamma x^3 / (3 hbar)): p -> p + gamma x^2; in hbar-free coordinates (x = k x~) p~ -> p~ + gamma k x~^2
+    [] op.name = "Vgate" -> [pt EXCEPT ![PI(pt, m)] = (@ + Res(RMul(Sgn(op, op.p[1]), k)) * pt[XI(pt, m)] * pt[XI(pt, m)]) % P]
     [] op.name = "Kgate" -> Turn(pt, m, KInt(op) * Energy(pt, m))
     [] op.name = "CKgate" -> LET m2 == op.modes[2]  e1 == Energy(pt, m)  e2 == Energy(pt, m2)
                              IN  Turn(Turn(pt, m, KInt(op) * e2), m2, KInt(op) * e1)
